@@ -542,7 +542,7 @@ def run_c07(ck, ctx):
 
 
 # =============================================================== C13
-def build_frame_stream(R, kind, lanes_spec, fmt=2, split=None):
+def build_frame_stream(R, kind, lanes_spec, fmt=2, split=None, orbit=77):
     """one HBF, one frame: lanes_spec = list of (id, lane bytes). returns pkts"""
     layer = {'IB': 0, 'ML': 3, 'OL': 5}[kind]
     fee = (layer << 12) | 5
@@ -554,7 +554,6 @@ def build_frame_stream(R, kind, lanes_spec, fmt=2, split=None):
     while any(c for _, c in streams):
         for i, c in streams:
             if c: words.append(G.dw(i, c.pop(0)))
-    orbit = 77
     pages, cur = [], [G.ihw(lanes_mask), G.tdh(trig=3, internal=0, bc=0, orbit=orbit)]
     maxw = split or 100000
     for w in words:
@@ -608,6 +607,28 @@ def run_c13(ck, ctx):
         # hit-content twin: same skeleton, different hits -> same verdict and statistics
         jobs.append((si, kind, variant, expect, G.encode(pk)))
 
+    # fatal-lane history: a lane announces a fatal APE in the first frame; the later frames of the link come
+    # without that lane (legal: expected lane count and inner-barrel grouping shrink) or still with it
+    for si in range(12 if tier == 'quick' else 200):
+        kind = R.choice(['IB', 'IB', 'ML', 'OL'])
+        if kind == 'IB':
+            g = R.choice([0, 3, 6]); ids = [0x20 + g + i for i in range(3)]
+        elif kind == 'ML': ids = G.ML_IDS[:8]
+        else: ids = G.OL_IDS[:14]
+        fl = R.randrange(len(ids)) if si % 3 else len(ids) - 1     # often the last lane of the group (lane 2 / 5 / 8)
+        keep = R.random() < 0.3
+        pk = []
+        for fr in range(R.randint(2, 4)):
+            spec = []
+            for j, i in enumerate(ids):
+                if fr > 0 and j == fl and not keep: continue
+                if kind == 'IB': b = G.alp_chip(R, i & 0xF, 33, 4)
+                else: b = b''.join(G.alp_chip(R, c, 33, 2) for c in range(7))
+                if fr == 0 and j == fl: b = bytes([R.choice([0xF4, 0xF5, 0xFA])]) + b
+                spec.append((i, b))
+            pk += build_frame_stream(R, kind, spec, fmt=2, orbit=100 + fr)
+        jobs.append((1000 + si, kind, 'fatal_history', set(), G.encode(pk)))
+
     def job(j):
         return L.run_cli(['check', 'all', 'its-stave'], j[4])
     res = L.pmap(job, jobs)
@@ -622,8 +643,8 @@ def run_c13(ck, ctx):
             continue
         codes = {e[1] for e in r.errors}
         frame_start = 64 + 10 * 1 if data[24] != 0 else 64 + 16
-        if variant == 'fatal_lane':
-            continue
+        if variant in ('fatal_lane', 'fatal_history'):
+            continue            # decided by exact agreement with the model (frame_verdict_exact, lane_count_iff)
         if variant in ('good',) and codes:
             ck.violation('false_alarm', {'what': 'a conforming readout frame is reported', 'kind': kind, 'errors': r.errors[:5], 'input_hex': data.hex()})
         for c in expect:
@@ -780,7 +801,7 @@ CHECKS = {
                           'FastPasta.C01.conforming_stream_accepted', 'FastPasta.C01.conforming_its_step', 'FastPasta.Proto.payload_sim',
                           'FastPasta.Proto.segs_sim', 'FastPasta.Proto.data_sim', 'FastPasta.Proto.cut_payload', 'FastPasta.Proto.payload_words',
                           'FastPasta.C01.run_ids_nodup', 'FastPasta.C01.conforming_input_clean', 'FastPasta.C03.scanLoop_benign', 'FastPasta.C01.conforming_stave_accepted',
-                          'FastPasta.C01.conforming_stave_stream_accepted', 'FastPasta.C01.conforming_input_clean_stave', 'FastPasta.C01.run_clean_of_quiet_validators',
+                          'FastPasta.C01.conforming_stave_stream_accepted', 'FastPasta.C01.conforming_input_clean_stave', 'FastPasta.C01.run_clean_of_quiet_validators', 'FastPasta.C01.conforming_input_clean_plain',
                           'FastPasta.Proto.spayload_sim', 'FastPasta.Proto.ssegs_sim', 'FastPasta.Proto.frameOk_checks', 'FastPasta.Proto.laneOk_verdict']),
     'C02': dict(modules=['FastPasta.Props.C02'], run=run_c02, needs_harness=False, corr='run_faulted',
                 theorems=['FastPasta.C02.rdh_sanity_fault_detected', 'FastPasta.C02.rdh_running_fault_detected', 'FastPasta.C02.sanity_mode_no_e11',
@@ -797,7 +818,7 @@ CHECKS = {
                           'FastPasta.C07.checkWords_ok', 'FastPasta.C07.checkWord_ok', 'FastPasta.C07.processFrame_ok', 'FastPasta.C07.preData_ok']),
     'C13': dict(modules=['FastPasta.Props.C13'], run=run_c13, needs_harness=False, corr='run_frames',
                 theorems=['FastPasta.C13.decode_encode', 'FastPasta.C13.hits_irrelevant', 'FastPasta.C13.event_decoded', 'FastPasta.C13.apply_skeleton',
-                          'FastPasta.C13.lane_count_iff_ib', 'FastPasta.C13.lane_count_iff_ml', 'FastPasta.C13.lane_count_iff_ol']),
+                          'FastPasta.C13.lane_count_iff_ib', 'FastPasta.C13.lane_count_iff_ml', 'FastPasta.C13.lane_count_iff_ol', 'FastPasta.C13.frame_verdict_exact', 'FastPasta.C13.go_spec', 'FastPasta.Proto.frameOk_checks']),
     'C20': dict(modules=['FastPasta.Props.C20'], run=run_c20, needs_harness=False, corr='run_custom',
                 theorems=['FastPasta.C20.cdps_iff', 'FastPasta.C20.pht_iff', 'FastPasta.C20.absent_is_silent', 'FastPasta.C20.finalize_default',
                           'FastPasta.C20.rdh_version_iff', 'FastPasta.C20.period_eq', 'FastPasta.C20.period_iff', 'FastPasta.C20.no_period_silent',
